@@ -281,6 +281,7 @@ class StmtMixin:
                 raise Untranslatable(f"raise of {ev.ty}")
             if s.cause is not None:
                 s2.set_fld("__cause__", Val.a(ev.t), vals[1].t)
+                s2.trace.append(("raise_from", ev, vals[1]))
             out.append(Outcome("raise", s2, SV(ev.t, TEXC)))
         return out
 
